@@ -120,6 +120,24 @@ func (fc *FnCtx) applyHook(h *Hook, env *Env, what string, in ssa.Instruction, s
 		// local variables of the enclosing function, with their value just before this instruction
 		cur := fc.cur
 		env.lookup = func(name string) (Val, bool) { return fc.lookupVarBefore(name, cur, in, st) }
+	} else if fc != fc.root() && env.lookup == nil && fc.cur != nil {
+		// the instruction sits in a helper inlined into the function under contract (the call
+		// was moved there by a refactoring): the rule's names are that function's, as of the
+		// call of the helper; the helper's own locals come second
+		root := fc.root()
+		top := fc
+		for top.frameParent != nil && top.frameParent != root {
+			top = top.frameParent
+		}
+		cur := fc.cur
+		env.lookup = func(name string) (Val, bool) {
+			if top.callBlock != nil {
+				if v, ok := root.lookupVarBefore(name, top.callBlock, top.callSite, st); ok {
+					return v, true
+				}
+			}
+			return fc.lookupVarBefore(name, cur, in, st)
+		}
 	}
 	defer func() {
 		if r := recover(); r != nil {
